@@ -26,7 +26,15 @@ def _child(make_calls, prefix: str, k: int, wfd: int) -> None:
     alone that reports the code location of every line it executes."""
     out: Dict[str, Any] = {'k': k, 'reached': False, 'events': [], 'error': None}
     try:
-        call_a, call_b = make_calls()
+        try:
+            call_a, call_b = make_calls()
+        except Exception as ex:  # noqa
+            # the set-up drives the library too (legal calls only): its failure is
+            # a failure of the code under test, not of the exploration
+            out['events'] = [{'ev': 'race-error', 'who': 'setup',
+                              'msg': f'{type(ex).__name__}: {ex}'[:120]}]
+            os.write(wfd, json.dumps(out).encode())
+            os._exit(0)
         paused, resume = threading.Event(), threading.Event()
         count = [0]
         res_a: List[Any] = []
@@ -72,7 +80,8 @@ def _child(make_calls, prefix: str, k: int, wfd: int) -> None:
                 evs_b = [{'ev': 'race-error', 'who': 'B', 'msg': f'{type(ex).__name__}: {ex}'[:120]}]
         resume.set()
         t.join(180.0)
-        out['events'] = list(res_a) + evs_b if k else []
+        out['events'] = (list(res_a) + evs_b) if k else [e for e in res_a if isinstance(e, dict)
+                                                         and e.get('ev') == 'race-error']
         out['hung'] = t.is_alive()
         out['locs'] = locs
     except BaseException as ex:  # noqa
@@ -95,6 +104,8 @@ def explore(make_calls: Callable[[], Tuple[Callable[[], List[dict]], Callable[[]
     interesting moments, not a thousand."""
     events: List[dict] = []
     dry = _run_child(make_calls, repo_prefix, 0)
+    if any(e.get('ev') == 'race-error' for e in dry.get('events', [])):
+        return [dict(e, tid='race0.setup') for e in dry['events']], 0
     if dry.get('error'):
         return [{'ev': 'race-error', 'who': 'harness', 'msg': 'dry run: ' + dry['error']}], 0
     locs = dry.get('locs', [])
